@@ -134,7 +134,10 @@ def describe(x, depth=0):
         return [describe(v, depth + 1) for v in x[:64]]
     if isinstance(x, dict) and depth < 3:
         return {str(k): describe(v, depth + 1) for k, v in list(x.items())[:32]}
-    return repr(x)[:200]
+    try:
+        return repr(x)[:200]
+    except Exception:
+        return "<%s %s>" % (type(x).__name__, {k: describe(v, depth + 1) for k, v in list(getattr(x, '__dict__', {}).items())[:6]})
 
 
 def _py(v):
